@@ -353,6 +353,8 @@ func init() {
 				it = append(it, Item{PkgKey: "band", Func: "VerifC13_Lookup", Shape: c})
 				it = append(it, Item{PkgKey: "band", Func: "VerifC13_Lookup", Shape: c, MapDesc: true})
 				it = append(it, Item{PkgKey: "band", Func: "VerifC13_RPValues", Shape: c})
+				// RX1 results handed out by the band (computed, not only tabulated) are defined data-rates
+				it = append(it, Item{PkgKey: "band", Func: "VerifC12_RX1DR", Shape: c})
 			}
 			nn := 14
 			if tier == "thorough" {
@@ -479,13 +481,14 @@ func init() {
 
 func init() {
 	register(&PropSpec{
-		ID:   "C19",
-		Pkgs: []string{"fragmentation"},
+		ID:        "C19",
+		MaxVisits: 2000000,
+		Pkgs:      []string{"fragmentation"},
 		Items: func(tier string, seed int64) []Item {
 			var it []Item
 			ws := pick(tier, append(rng(1, 17), 31, 32, 33), append(rng(1, 66), 127, 128, 129, 130))
 			for _, w := range ws {
-				for _, size := range pick(tier, []int{1, 3}, []int{1, 2, 3, 8}) {
+				for _, size := range pick(tier, []int{1, 3, 8, 16}, []int{1, 2, 3, 7, 8, 9, 16, 24}) {
 					red := 5
 					if tier == "thorough" {
 						red = 40
@@ -602,7 +605,7 @@ var specSizes = []int{1, 2, 4, 1, 4, 5, 1, 1, 4, 1, 1, 5, 2, 1, 4, 3, 1, 1, 1, 1
 func init() {
 	register(&PropSpec{
 		ID:   "C09",
-		Pkgs: []string{"root"},
+		Pkgs: []string{"root", "clocksync", "multicastsetup", "fragmentation", "firmwaremanagement", "backend"},
 		Items: func(tier string, seed int64) []Item {
 			var it []Item
 			for _, l := range pick(tier, rng(0, 24), append(rng(0, 48), 64)) {
@@ -627,6 +630,19 @@ func init() {
 			}
 			for _, n := range pick(tier, []int{0, 1, 2, 3, 6, 8}, append(rng(0, 10), 16, 32, 34)) {
 				it = append(it, Item{PkgKey: "root", Func: "VerifC09_IdentText", Shape: []int{n}})
+			}
+			for _, pk := range []string{"clocksync", "multicastsetup", "fragmentation", "firmwaremanagement"} {
+				for up := 0; up <= 1; up++ {
+					for _, l := range pick(tier, rng(0, 6), rng(0, 8)) {
+						it = append(it, Item{PkgKey: pk, Func: "VerifC09_Commands", Shape: []int{up, l}})
+					}
+				}
+			}
+			for _, n := range []int{0, 1, 7, 8, 15, 16, 17, 23, 24, 25, 32, 40} {
+				it = append(it, Item{PkgKey: "backend", Func: "VerifC17_UnwrapAnyLength", Shape: []int{n}})
+			}
+			for _, n := range []int{0, 1, 2, 3, 4, 5, 8} {
+				it = append(it, Item{PkgKey: "backend", Func: "VerifC17_HEXAnyText", Shape: []int{n}})
 			}
 			return it
 		},
@@ -746,6 +762,9 @@ func init() {
 			}
 			for w := 0; w < 5; w++ {
 				it = append(it, Item{PkgKey: "multicastsetup", Func: "VerifC18_Keys", Shape: []int{w}})
+				for w2 := 0; w2 < 5; w2++ {
+					it = append(it, Item{PkgKey: "multicastsetup", Func: "VerifC18_KeysTwice", Shape: []int{w, w2}})
+				}
 			}
 			return it
 		},
